@@ -141,7 +141,7 @@ def run_both(lines, mode, variant="f64", timeout=1200):
     hmode = "exact" if mode == "exact" else "float"
     mmode = {"exact": "exact", "float": "float", "f32": "f32"}[mode if variant != "f32" or mode == "exact" else "f32"]
     pm = subprocess.run([MODEL_BIN, mmode], input=text, stdout=subprocess.PIPE, stderr=subprocess.PIPE,
-                        universal_newlines=True, timeout=1200)
+                        universal_newlines=True, timeout=400)
     try:
         pi = subprocess.run([harness_bin(variant), hmode], input=text, stdout=subprocess.PIPE, stderr=subprocess.PIPE,
                             universal_newlines=True, timeout=timeout)
@@ -786,4 +786,10 @@ def write_evidence(pid, tier, seed, cfg, theorems, declared, proof_ok, corr, sam
 
 
 if __name__ == "__main__":
-    sys.exit(main())
+    try:
+        sys.exit(main())
+    except subprocess.TimeoutExpired as e:
+        # the model driver did not finish a batch in time: a fault of the machinery (a generated case too large for
+        # the list-based model), not a statement about the code - reported as an error, never as a violation
+        print("ERROR: the model driver timed out (%s); no verdict" % (e.cmd,))
+        sys.exit(2)
